@@ -117,4 +117,32 @@ if sys.byteorder != 'little':
     bad.append(['X-ENV host byte order', sys.byteorder])
 record('X-NP slicing views / np.zeros fresh / field assignment / row iteration + byteswap().tobytes() big-endian / byteswap copies / newbyteorder / structured dtype', n, bad)
 
+# X-NPSTEP: the step model of pyvc/npstats.py
+import itertools as _it
+n, bad = 0, []
+_rng = np.random.default_rng(7)
+_arrs = [np.array(t, dtype=np.float64) for k in (2, 3, 4) for t in _it.product([-2.0, -0.5, 0.0, 0.25, 1.0, 3.0], repeat=k)]
+_arrs += [np.cumsum(_rng.choice([1.0, 1.01, 1.03, 0.97, -1.0, 0.0, 2.5], size=int(_rng.integers(2, 12)))) for _ in range(400)]
+_arrs += [np.array(t, dtype=np.int64) for t in _it.product([-3, 0, 1, 4], repeat=3)]
+for x in _arrs:
+    d = np.diff(x)
+    u = np.unique(d)
+    steps = [float(x[i + 1]) - float(x[i]) for i in range(len(x) - 1)]
+    lo, hi = min(steps), max(steps)
+    n += 1
+    if d.tolist() != steps or u.tolist() != sorted(set(steps)) or u[0] != lo or u[-1] != hi or len(u) != len(set(steps)) or (len(u) == 1) != (lo == hi):
+        bad.append(['diff/unique', x.tolist()])
+    m = np.median(d).item()
+    if not (lo <= m <= hi and lo <= np.mean(d).item() <= hi and lo <= np.median(u).item() <= hi):
+        bad.append(['median/mean within range', x.tolist()])
+    for pred in (lambda a: a == 0, lambda a: a >= 0, lambda a: a <= 0, lambda a: a > 0.5, lambda a: (1 - a / (m if m else 1.0)) ** 2 < 0.001):
+        for arr in (d, u):
+            r = bool(pred(arr).all())
+            if r != all(bool(pred(np.float64(s))) for s in steps):
+                bad.append(['all() is the conjunction over the elements', x.tolist()])
+            if r and not (bool(pred(np.float64(lo))) and bool(pred(np.float64(hi)))):
+                bad.append(['all() => least and greatest', x.tolist()])
+    n += 1
+record('X-NPSTEP np.diff / np.unique sorted distinct / median, mean within range / element-wise predicate + all()', n, bad)
+
 print(json.dumps(res))
